@@ -17,6 +17,8 @@ import Gotree.Lemmas.C08HM
 import Gotree.Lemmas.C08Rooted
 import Gotree.Lemmas.C08Inv
 import Gotree.Lemmas.C08Zero
+import Gotree.Lemmas.C08Cli
+import Gotree.Gen.C08Glue
 
 namespace Gotree.C08
 open Gotree List
@@ -559,5 +561,217 @@ theorem weighted_absent_pinned_negative :
   refine ⟨by decide, by decide, by decide, ?_, ?_⟩
   · simp [wrf, NIL]; grind
   · simp [wrf]; grind
+
+/-! ## The glue of `gotree compare trees` (cmd/comparetrees.go) and the call protocol
+
+  The command is modelled as an interpreter (`cliOutput`, Model/C08Cli.lean) of a table of facts
+  about its source; the table is regenerated from the working tree on every run
+  (`harness/c08/extract.go` → `Gotree/Gen/C08Glue.lean`). -/
+
+/-- the table regenerated from the working tree (flags of the command; calls, formats and
+    assignments of RunE with their flag tests; comparison operators, index calls, stats records
+    and the "no length" marker of the library functions) is the one the model was written from -/
+theorem glue_check : Gotree.Gen.C08Glue.glue = expectedGlue := by decide
+
+/-- option priorities, part 1: `--weighted` alone decides which library function is called;
+    `--tips` and `--binary` are passed on as its `tips` / identical-only arguments; `--rf` never
+    reaches the library -/
+theorem cli_mode_priority (f : Flags) :
+    libCall expectedGlue f = some (if f.weighted then "CompareWeighted" else "Compare", f.tips, f.binary) := by
+  rcases f with ⟨t, b, r, w⟩
+  cases t <;> cases b <;> cases r <;> cases w <;> decide
+
+/-- option priorities, part 2: the row printed is the one of `--binary` whenever it is given, else the
+    one of `--weighted`, else the one of `--rf`, else the four columns — the documented modes -/
+theorem cli_row_format (f : Flags) :
+    (rowEvent expectedGlue f).map (·.text) =
+      some (if f.binary then "%d\t%v\n" else if f.weighted then "%d\t%E\t%E\n"
+            else if f.rf then "%d\n" else "%d\t%d\t%d\t%d\n") := by
+  rcases f with ⟨t, b, r, w⟩
+  cases t <;> cases b <;> cases r <;> cases w <;> decide
+
+theorem cli_header (f : Flags) :
+    headerOf expectedGlue f =
+      (if f.binary then ["tree\tidentical\n"] else if f.weighted then ["tree\tweighted_RF\tKF\n"]
+       else if f.rf then [] else ["tree\treference\tcommon\tcompared\n"]) := by
+  rcases f with ⟨t, b, r, w⟩
+  cases t <;> cases b <;> cases r <;> cases w <;> decide
+
+/-- the record the command reads for a tree of the property is the Spec's -/
+theorem recOf_compare (f : Flags) (hw : f.weighted = false) (hb : f.binary = false) (r c : T) (id : Nat)
+    (hT : sameTaxa r c = true) (hr : unrootedOK r = true) (hc : unrootedOK c = true) :
+    recOf expectedGlue f r c id = some (.ok (specRec r c f.tips id)) := by
+  unfold recOf
+  rw [cli_mode_priority, hw, hb]
+  simp [compare_counts r c f.tips hT hr hc, specRec]
+
+theorem rows_plain (r : T) (tips : Bool) (hr : unrootedOK r = true) :
+    ∀ (cs : List T) (id : Nat), (∀ c ∈ cs, sameTaxa r c = true ∧ unrootedOK c = true) →
+      rowsUntilErr expectedGlue (plainF tips) r cs id = some (specRows plainLine r tips cs id, false)
+  | [], _, _ => rfl
+  | c :: cs, id, h => by
+    have hc := h c (by simp)
+    have ih := rows_plain r tips hr cs (id + 1) (fun x hx => h x (by simp [hx]))
+    unfold rowsUntilErr
+    rw [recOf_compare (plainF tips) rfl rfl r c id hc.1 hr hc.2]
+    simp only [plainF_tips, rowText_plain, ih, specRows]
+
+theorem rows_rf (r : T) (tips : Bool) (hr : unrootedOK r = true) :
+    ∀ (cs : List T) (id : Nat), (∀ c ∈ cs, sameTaxa r c = true ∧ unrootedOK c = true) →
+      rowsUntilErr expectedGlue (rfF tips) r cs id = some (specRows rfLine r tips cs id, false)
+  | [], _, _ => rfl
+  | c :: cs, id, h => by
+    have hc := h c (by simp)
+    have ih := rows_rf r tips hr cs (id + 1) (fun x hx => h x (by simp [hx]))
+    unfold rowsUntilErr
+    rw [recOf_compare (rfF tips) rfl rfl r c id hc.1 hr hc.2]
+    simp only [rfF_tips, rowText_rf, ih, specRows]
+
+/-- ★ `gotree compare trees -i r -c cs [-l]` on trees of the property writes the header and, for the
+    compared tree number i, the line `i⇥|R\C|⇥|R∩C|⇥|C\R|` of the Spec, in file order, and succeeds. -/
+theorem cli_plain_output (r : T) (cs : List T) (tips : Bool) (hr : unrootedOK r = true)
+    (h : ∀ c ∈ cs, sameTaxa r c = true ∧ unrootedOK c = true) :
+    cliOutput expectedGlue (plainF tips) r cs =
+      some (String.join ("tree\treference\tcommon\tcompared\n" :: specRows plainLine r tips cs 0), false) := by
+  unfold cliOutput
+  rw [rows_plain r tips hr cs 0 h, headerOf_plain]
+  simp
+
+/-- `--rf`: no header, one line `|R\C| + |C\R|` per compared tree, in file order -/
+theorem cli_rf_output (r : T) (cs : List T) (tips : Bool) (hr : unrootedOK r = true)
+    (h : ∀ c ∈ cs, sameTaxa r c = true ∧ unrootedOK c = true) :
+    cliOutput expectedGlue (rfF tips) r cs = some (String.join (specRows rfLine r tips cs 0), false) := by
+  unfold cliOutput
+  rw [rows_rf r tips hr cs 0 h, headerOf_rf]
+  simp
+
+/-- the hypotheses are satisfiable on `exR` against `[exC, exR]` (a contraction, the tree itself) -/
+example : cliOutput expectedGlue (plainF false) exR [exC, exR] =
+    some (String.join ("tree\treference\tcommon\tcompared\n" :: specRows plainLine exR false [exC, exR] 0), false) :=
+  cli_plain_output exR [exC, exR] false (by decide)
+    (by intro c hc; simp at hc; rcases hc with rfl | rfl <;> exact ⟨by decide, by decide⟩)
+theorem reinitOk_of_unrootedOK (t : T) (h : unrootedOK t = true) : reinitOk t = true := by
+  have hg := unrooted_good t h
+  simp [good] at hg
+  simp [reinitOk, hg.1.1.1.1, hg.1.1.1.2]
+
+theorem recOf_binary (f : Flags) (hw : f.weighted = false) (hb : f.binary = true) (r c : T) (id : Nat)
+    (hT : sameTaxa r c = true) (hr : unrootedOK r = true) (hc : unrootedOK c = true) :
+    ∃ a b d, recOf expectedGlue f r c id = some (.ok ⟨id, a, b, d, sameSplits r c f.tips⟩) := by
+  obtain ⟨st, hst⟩ := same_taxa_ok r c f.tips true (reinitOk_of_unrootedOK r hr) (reinitOk_of_unrootedOK c hc) hT
+  have hs := sametree_shortcut r c f.tips hT hr hc st hst
+  refine ⟨st.tree1, st.tree2, st.common, ?_⟩
+  unfold recOf
+  rw [cli_mode_priority, hw, hb]
+  simp [hst, hs]
+
+theorem rows_binary (f : Flags) (hw : f.weighted = false) (hb : f.binary = true) (r : T) (hr : unrootedOK r = true) :
+    ∀ (cs : List T) (id : Nat), (∀ c ∈ cs, sameTaxa r c = true ∧ unrootedOK c = true) →
+      rowsUntilErr expectedGlue f r cs id = some (specRows binaryLine r f.tips cs id, false)
+  | [], _, _ => rfl
+  | c :: cs, id, h => by
+    have hc := h c (by simp)
+    have ih := rows_binary f hw hb r hr cs (id + 1) (fun x hx => h x (by simp [hx]))
+    obtain ⟨a, b, d, hrec⟩ := recOf_binary f hw hb r c id hc.1 hr hc.2
+    unfold rowsUntilErr
+    rw [hrec]
+    simp only [rowText_binary f hb, ih, specRows]
+    simp [binaryLine, specRec]
+
+/-- `--binary` (with or without `--rf`): the header `tree⇥identical` and, for the compared tree number
+    i, the line `i⇥true|false` saying whether its split set is the reference's; `--rf` changes nothing -/
+theorem cli_binary_output (f : Flags) (hw : f.weighted = false) (hb : f.binary = true) (r : T) (cs : List T)
+    (hr : unrootedOK r = true) (h : ∀ c ∈ cs, sameTaxa r c = true ∧ unrootedOK c = true) :
+    cliOutput expectedGlue f r cs = some (String.join ("tree\tidentical\n" :: specRows binaryLine r f.tips cs 0), false) := by
+  unfold cliOutput
+  rw [rows_binary f hw hb r hr cs 0 h, cli_header, hb]
+  simp
+
+/-- with the identical-only shortcut too, `CompareWeighted` (absent length = 0) answers on trees of the
+    property, and its flag is the Spec's weighted identity -/
+theorem weighted0_shortcut_ok (r c : T) (tips : Bool) (hT : sameTaxa r c = true)
+    (hr : unrootedOK r = true) (hc : unrootedOK c = true) :
+    ∃ w, compareWeighted0 r c tips true = .ok w ∧ w.same = wSame0 r c tips := by
+  obtain ⟨w0, h0, _, _, _, hs⟩ := weighted_terms0 r c tips hT hr hc
+  have hf := Canon.compareWeighted_shortcut_flag r.zeroLens c.zeroLens tips
+  rw [← compareWeighted_eq, ← compareWeighted_eq] at hf
+  unfold compareWeighted0 at h0 ⊢
+  rw [h0] at hf
+  cases hx : compareWeighted r.zeroLens c.zeroLens tips true with
+  | ok w =>
+    refine ⟨w, rfl, ?_⟩
+    rw [hx] at hf
+    simp only [Canon.wflag, Res.ok.injEq] at hf
+    rw [hf, hs]
+  | err => rw [hx] at hf; simp [Canon.wflag] at hf
+  | refErr => rw [hx] at hf; simp [Canon.wflag] at hf
+
+theorem rows_wbinary (f : Flags) (hw : f.weighted = true) (hb : f.binary = true) (r : T) (hr : unrootedOK r = true) :
+    ∀ (cs : List T) (id : Nat), (∀ c ∈ cs, sameTaxa r c = true ∧ unrootedOK c = true) →
+      rowsUntilErr expectedGlue f r cs id = some (specRowsW r f.tips cs id, false)
+  | [], _, _ => rfl
+  | c :: cs, id, h => by
+    have hc := h c (by simp)
+    have ih := rows_wbinary f hw hb r hr cs (id + 1) (fun x hx => h x (by simp [hx]))
+    obtain ⟨w, hw0, hs⟩ := weighted0_shortcut_ok r c f.tips hc.1 hr hc.2
+    have hrec : recOf expectedGlue f r c id = some (.ok ⟨id, 0, 0, 0, wSame0 r c f.tips⟩) := by
+      unfold recOf
+      rw [cli_mode_priority, hw, hb]
+      simp [hw0, hs]
+    unfold rowsUntilErr
+    rw [hrec]
+    simp only [rowText_binary f hb, ih, specRowsW]
+
+/-- `--weighted --binary` (with or without `--rf`): `i⇥true|false`, true exactly when the compared
+    tree has the reference's splits with the reference's lengths (an absent length counting 0) -/
+theorem cli_wbinary_output (f : Flags) (hw : f.weighted = true) (hb : f.binary = true) (r : T) (cs : List T)
+    (hr : unrootedOK r = true) (h : ∀ c ∈ cs, sameTaxa r c = true ∧ unrootedOK c = true) :
+    cliOutput expectedGlue f r cs = some (String.join ("tree\tidentical\n" :: specRowsW r f.tips cs 0), false) := by
+  unfold cliOutput
+  rw [rows_wbinary f hw hb r hr cs 0 h, cli_header, hb]
+  simp
+
+/-- the rejection clause at the command: a first compared tree on other taxa makes the command
+    fail, whatever the flags (in the modes whose rows are text) -/
+theorem cli_difftaxa_fails (f : Flags) (r c : T) (cs : List T) (hr : reinitOk r = true) (hc : reinitOk c = true)
+    (h : sameTaxa r c = false) (out : String × Bool) (ho : cliOutput expectedGlue f r (c :: cs) = some out) :
+    out.2 = true := by
+  unfold cliOutput at ho
+  have h1 : rowsUntilErr expectedGlue f r (c :: cs) 0 = some ([], true) := by
+    unfold rowsUntilErr
+    have hd := different_taxa_err r c f.tips f.binary hr hc h
+    have hz : compareWeighted0 r c f.tips f.binary = .err := by
+      unfold compareWeighted0
+      exact (different_taxa_err r.zeroLens c.zeroLens f.tips f.binary (by rw [reinitOk_zeroLens]; exact hr)
+        (by rw [reinitOk_zeroLens]; exact hc) (by rw [sameTaxa_zeroLens]; exact h)).2.1
+    unfold recOf
+    rw [cli_mode_priority]
+    cases hw : f.weighted <;> simp [hd.1, hz]
+  rw [h1] at ho
+  simp at ho
+  rw [← ho]
+
+/-- `if cpus < 1 { cpus = 1 }`: at least one worker is started, so every item gets a record -/
+theorem workersOf_pos (cpus : Int) : 1 ≤ workersOf cpus := by
+  unfold workersOf
+  split <;> omega
+
+/-- the call protocol: with an indexable reference the caller that drains the channel gets exactly
+    one record per item whatever `cpus` (0 and negative values included), and an item that carries
+    the reader's error gets a record carrying an error -/
+theorem compareCall_records (r : T) (items : List Item) (tips sc : Bool) (cpus : Int) (hr : reinitOk r = true) :
+    compareCall (some r) items tips sc cpus = some (items.map fun it => compareItem r it tips sc) ∧
+    compareItem r .readErr tips sc = .err ∧ compareWeightedItem r .readErr tips sc = .err ∧
+    compareCall none items tips sc cpus = none := by
+  have h := workersOf_pos cpus
+  refine ⟨?_, ?_, ?_, rfl⟩
+  · unfold compareCall
+    have : (workersOf cpus == 0) = false := by
+      cases hw : workersOf cpus with
+      | zero => omega
+      | succ n => rfl
+    simp [hr, this]
+  · simp [compareItem, hr]
+  · simp [compareWeightedItem, hr]
 
 end Gotree.C08
